@@ -59,6 +59,7 @@ type Exec struct {
 	usedExt       map[string]bool
 	usedContracts map[string]bool
 	inSpecFailure bool
+	iterObjBase   int // first object id of the current loop iteration (iterfresh)
 	urlOrigin     map[int]Term // parsed *url.URL object -> the text it was parsed from
 	sprintfFmt    map[string]string // result term of fmt.Sprintf -> its format literal
 	iterBase      int // recorded calls before the current loop iteration (for itercalls)
